@@ -20,7 +20,7 @@ structure InvW (s : State) : Prop where
   nCached : ∀ n ∈ s.nets, n.nCached = s.pages.countP (fun p => p.net = n.id)
   nRef : ∀ n ∈ s.nets, n.nRef = s.pages.countP (fun p => p.net = n.id ∧ 0 < p.ref)
   nSub : ∀ n ∈ s.nets, ∀ pg, (n.getStat pg).nSub
-      = s.pages.countP (fun p => p.net = n.id ∧ p.pgno = pg) % 256
+      = s.pages.countP (fun p => p.net = n.id ∧ p.pgno = pg) % 65536
   nPages : s.nCachedPages = s.pages.length
   mem : s.memUsed = ((s.pages.filter (fun p => p.ref = 0)).map Page.size).sum
   nNets : s.nCachedNets = s.nets.countP (fun n => !n.zombie)
@@ -70,7 +70,7 @@ theorem map_netKey_updNid {l : List Net} {x : Nat} {f : Net → Net} (hf : ∀ n
 
 def rmPageNet (pg : Nat) (n : Net) : Net :=
   let ps := n.getStat pg
-  ({ n with nCached := n.nCached - 1 } : Net).setStat pg { ps with nSub := (ps.nSub + 255) % 256 }
+  ({ n with nCached := n.nCached - 1 } : Net).setStat pg { ps with nSub := (ps.nSub + 65535) % 65536 }
 
 theorem freePage_pages (s : State) (p : Page) : (s.freePage p).pages = rmId s.pages p.id := by
   unfold State.freePage; split <;> rfl
@@ -100,7 +100,7 @@ theorem freePage_memLimit (s : State) (p : Page) : (s.freePage p).memLimit = s.m
 @[simp] theorem rmPageNet_ref (pg : Nat) (n : Net) : (rmPageNet pg n).ref = n.ref := rfl
 @[simp] theorem rmPageNet_zombie (pg : Nat) (n : Net) : (rmPageNet pg n).zombie = n.zombie := rfl
 theorem rmPageNet_getStat (pg pg' : Nat) (n : Net) : ((rmPageNet pg n).getStat pg').nSub
-    = if pg' = pg then ((n.getStat pg).nSub + 255) % 256 else (n.getStat pg').nSub := by
+    = if pg' = pg then ((n.getStat pg).nSub + 65535) % 65536 else (n.getStat pg').nSub := by
   unfold rmPageNet; simp only [getStat_setStat]; split
   · rfl
   · unfold Net.getStat; rfl
